@@ -707,3 +707,96 @@ def a_blocks_group_does_not_depend_on_its_neighbours_in_the_list(nt: int, B1: fl
     nBu = 2
     assert hot.p.envGroupNum % nBu == first_index(bu, [B1]) and hot.p.envGroupNum // nBu == first_index(T, tb), "the type with a temperature isotope: (temperature group, burnup group)"
     assert plain.p.envGroupNum == first_index(bu2, [B1]), "the type without one: temperature group 0, whatever came before it in the list"
+
+
+# ------------------------------------------------------------------------------------------ widened hypotheses
+# The lemmas above assume positive volumes / non-negative masses and burnups for convenience; the property quantifies
+# over all blocks.  The lemmas below state the same clauses on the parts of the input space those hypotheses excluded
+# (kept as separate lemmas so that the obligations above keep their names).  Classification of what stays assumed:
+#   v > 0 (block volumes): v == 0 is in getWeight's domain (substitute 1.0, lemma weight_is_parameter_times_volume_and_never_zero);
+#       the burnup / component-temperature kernels divide by the zero volume / height: contracts/C20_xsgroups_finding.py.
+#       v < 0 is no block.
+#   valid_weighting (all-zero or all-positive weighting parameter): the property text conditions on it and
+#       _checkValidWeightingFactors enforces it (mixed_zero_and_nonzero_weighting_factors_are_refused).
+#   masses / volume fractions / areas of ONE sign per averaged quantity: genuine precondition of the 'between minimum
+#       and maximum' clause - with weights of both signs (a bond overlapped in one member only) the weight-normalised
+#       mean is still what the code returns, but it is not a convex combination; negative weights throughout are
+#       covered below and in contracts/C20_collections_finding.py.
+#   densities >= 0, heights > 0 of blocks with volume, burnup bounds in (0, 100], ascending bounds: data invariants
+#       (the bounds are validated by _setBuGroupBounds / _setTempGroupBounds, lemmas above).
+@lemma(gen=dict(GEN3, m1=[0.0, -1.0, -35.5], m2=[0.0, -2.0, -12.25], m3=[0.0, -0.5, -100.0]))
+def component_average_temperature_with_negative_component_masses(n: int, k: int, fluxWeighted: bool, v1: float, v2: float, v3: float, f1: float,
+                                                                  f2: float, f3: float, h1: float, h2: float, h3: float, m1: float, m2: float,
+                                                                  m3: float, t1: float, t2: float, t3: float, e1: bool, e2: bool, e3: bool):
+    """_getAverageComponentTemperature(k) when the matching component has a NEGATIVE mass in every member (<= 0,
+    possibly all zero): a gap of negative area holding a fluid (Component.getMass = density x volume; negative
+    areas are admitted for non-solid materials, Component._checkNegativeArea).  All weights block weight / height x
+    mass have one sign, so the weight-normalised mean is the same convex combination as for positive masses."""
+    n = choose(n, 1, 3)
+    k = choose(k, 0, 1)
+    vs, fs, es = [v1, v2, v3][:n], [f1, f2, f3][:n], [e1, e2, e3][:n]
+    hs, ms, ts = [h1, h2, h3][:n], [m1, m2, m3][:n], [t1, t2, t3][:n]
+    assume(all(v > 0 for v in vs) and all(h > 0 for h in hs) and all(m <= 0 for m in ms) and any(es))
+    assume(valid_weighting([f for f, e in zip(fs, es) if e]))
+    bc = collection(fluxWeighted, True)
+    for v, f, h, m, t, e in zip(vs, fs, hs, ms, ts, es):
+        target, other = comp(k, 0.0, 0.0, temp=t, mass=m), comp(1 - k, 0.0, 0.0, temp=-40.0, mass=7.0)
+        bc.append(blk(v, f, 0.0, 0.0, eligible=e, height=h, comps=[target, other] if k == 1 else [other, target]))
+    avg = bc._getAverageComponentTemperature(k)
+    el = [i for i in range(n) if es[i]]
+    bw = spec_weights(fluxWeighted, [fs[i] for i in el], [vs[i] for i in el])
+    ws = [-(w / hs[i] * ms[i]) for w, i in zip(bw, el)]  # one sign: normalising by the (negative) total gives the weights -w / -W
+    if sum(ws) == 0:
+        ws = [1.0 for i in el]
+    check_mean(avg, ws, [ts[i] for i in el], [True] * len(el), "temperature")
+
+
+@lemma(gen=dict(GEN5, b1=(-5.0, 30.0), b2=(-5.0, 30.0), b3=(-5.0, 30.0)))
+def median_member_for_burnups_of_any_sign(n: int, v1: float, v2: float, v3: float, b1: float, b2: float, b3: float, e1: bool, e2: bool,
+                                          e3: bool):
+    """median_member_is_an_eligible_member_holding_the_median_weighted_burnup without the hypothesis burnup >= 0
+    (percentBu is a plain parameter; nothing in the collection restricts its sign)"""
+    n = choose(n, 1, 3)
+    vs, bs, es = [v1, v2, v3][:n], [b1, b2, b3][:n], [e1, e2, e3][:n]
+    assume(all(v > 0 for v in vs) and any(es))
+    bc = MedianBlockCollection(NUCS)
+    bc._validRepresentativeBlockTypes = [FUEL]
+    names = ["B0003", "B0001", "B0002"]
+    for i in range(n):
+        bc.append(new(NamedBlk, vol=vs[i], eligible=es[i], name=names[i], p=new(Params, percentBu=bs[i])))
+    med = bc._getMedianBlock()
+    el = [i for i in range(n) if es[i]]
+    assert sum(1 for i in el if same(bc[i], med)) == 1, "the representative is an actual eligible member"
+    k = bs[[i for i in el if same(bc[i], med)][0]] * vs[[i for i in el if same(bc[i], med)][0]]
+    below = sum(1 for i in el if bs[i] * vs[i] < k)
+    above = sum(1 for i in el if bs[i] * vs[i] > k)
+    assert 2 * below <= len(el) and 2 * above <= len(el), "it holds a median of the weighted burnups"
+
+
+@lemma(gen=dict(GEN4, q11=(-0.3, -0.01), q21=(-0.3, -0.01), u11=[0.0, 0.01, 0.02], u21=[0.0, 0.015]))
+def nuclide_temperature_of_a_nuclide_held_by_negative_volume_components(n: int, fluxWeighted: bool, v1: float, v2: float, f1: float, f2: float,
+                                                                        T11: float, T12: float, T21: float, T22: float, u11: float,
+                                                                        u21: float, q11: float, q21: float, e1: bool, e2: bool):
+    """calcAvgNuclideTemperatures when a nuclide (U235 here; density >= 0, zero = trace) is listed only by a component
+    of NEGATIVE volume fraction q < 0 in every member (a fluid-filled gap that its neighbours overlap; the other
+    component takes 1 - q > 1 and lists FE56 only): all weights block weight x density x volume have one sign, so the
+    nuclide temperature is the same convex combination of the gap temperatures as for positive volumes - and FE56 is
+    not disturbed by the negative neighbour"""
+    n = choose(n, 1, 2)
+    vs, fs, es = [v1, v2][:n], [f1, f2][:n], [e1, e2][:n]
+    Ts, us, qs = [(T11, T12), (T21, T22)][:n], [u11, u21][:n], [q11, q21][:n]
+    assume(all(v > 0 for v in vs) and any(es) and all(q < 0 for q in qs) and all(a >= 0 for a in us))
+    assume(valid_weighting([f for f, e in zip(fs, es) if e]))
+    bc = collection(fluxWeighted, True)
+    for v, f, T, u, q, e in zip(vs, fs, Ts, us, qs, es):
+        ca = comp(0, u, 0.0, temp=T[0], volFrac=q, hasFe=False)
+        cb = new(Comp, order=1, temperatureInC=T[1], mass=0.0, volFrac=1 - q, p=new(Params, numberDensities={"FE56": 0.02}))
+        bc.append(blk(v, f, 0.0, 0.0, eligible=e, comps=[ca, cb]))
+    bc.calcAvgNuclideTemperatures()
+    el = [i for i in range(n) if es[i]]
+    bw = spec_weights(fluxWeighted, [fs[i] for i in el], [vs[i] for i in el])
+    trace = xsgm.TRACE_NUMBER_DENSITY
+    ws = [w * (us[i] if us[i] != 0 else trace) * (-qs[i]) * vs[i] for w, i in zip(bw, el)]  # sign taken out: the normalised weights are w / W
+    check_mean(bc.avgNucTemperatures["U235"], ws, [Ts[i][0] for i in el], [True] * len(ws), "T(U235)")
+    ws = [w * 0.02 * (1 - qs[i]) * vs[i] for w, i in zip(bw, el)]
+    check_mean(bc.avgNucTemperatures["FE56"], ws, [Ts[i][1] for i in el], [True] * len(ws), "T(FE56)")
